@@ -1657,14 +1657,14 @@ def _c16_extra(rng, tier):
             c.execute(2, [p_bytes(T_VAR_STRING, b"q")], [op_completed(2, 0)], rebind=False)
             c.execute(1, [p_int(T_TINY, 5, uns=True)], [op_completed(4, 0)])
             c.execute(1, [p_int(T_TINY, 200, uns=True)], [op_completed(5, 0)], rebind=False)
-        elif v == 2 and i % 6 == 2:
+        elif v == 2 and i % 9 == 2:
             # types bound for a statement that was closed must not reach a new statement with another id
             c.prepare("A", prep_ok(1, [col("a", T_LONGLONG)], []))
             c.execute(1, [p_int(T_LONGLONG, 0xdeadbeef, uns=True)], [op_completed(1, 0)])
             c.cmd(com_close(1))
             c.prepare("B", prep_ok(2, [col("a", T_LONGLONG)], []))
             c.execute(2, [p_int(T_LONGLONG, 5)], [op_completed(2, 0)], rebind=False)
-        elif v == 2 and i % 6 == 5:
+        elif v == 2 and i % 9 == 5:
             # a rebind that changes only the signedness, and a rebind whose last parameter is NULL
             c.prepare("S", prep_ok(3, [col("a", T_LONGLONG), col("b", T_LONG)], []))
             c.execute(3, [p_int(T_LONGLONG, 2**64 - 1, uns=False), p_int(T_LONG, 7)], [op_completed(1, 0)])
